@@ -165,6 +165,9 @@ package dns
 //@   assert at "dh.Qdcount = uint16(len(dns.Question))" hdr8: 0 <= dns.Opcode && dns.Opcode <= 15 ==> dh.Bits == dns.Opcode * 2048 + dns.Rcode % 16 + (dns.Response ? 32768 : 0) + (dns.Authoritative ? 1024 : 0) + (dns.Truncated ? 512 : 0) + (dns.RecursionDesired ? 256 : 0) + (dns.RecursionAvailable ? 128 : 0) + (dns.Zero ? 64 : 0) + (dns.AuthenticatedData ? 32 : 0) + (dns.CheckingDisabled ? 16 : 0) [C01]
 //@   assert at "if dns.Response {" rcodelo: dh.Bits % 16 == dns.Rcode % 16 [C01]
 //@   assert at "dh.Qdcount = uint16(len(dns.Question))" hdrid: dh.Id == dns.Id [C01]
+// RFC 1035 4.1.1: the four 16-bit counts say how many entries each section has (a section of 65536 or more entries
+// has no header encoding: packing must not succeed with a count that wrapped around)
+//@   assert at "off := 0" counts: dh.Qdcount == len(dns.Question) && dh.Ancount == len(dns.Answer) && dh.Nscount == len(dns.Ns) && dh.Arcount == len(dns.Extra) [C01]
 //@   assert at "off := 0" slack: len(msg) >= uncompressedLen + 1 [C08]
 //@   ensures hdr12: ret1 == nil ==> len(ret0) >= 12
 //@   ensures within: ret1 == nil && ref(ret0) == ref(buf) ==> len(ret0) <= len(buf)
